@@ -14,6 +14,7 @@ import (
 	"sort"
 	"strconv"
 	"strings"
+	"sync"
 	"time"
 
 	"verifharness/mon"
@@ -47,6 +48,7 @@ type tsmOp struct {
 // modelTSM is an in-memory configfs-tsm rtmr subsystem: entries are directories holding
 // "index" and "digest"; writing 48 bytes to "digest" extends the register the entry is bound to.
 type modelTSM struct {
+	mu      sync.Mutex // a library that keeps a client beyond the call may use it from another goroutine
 	entries map[string]*tsmEntry
 	regs    map[int][]byte
 	log     []tsmOp
@@ -84,6 +86,8 @@ func (m *modelTSM) split(name string) (entry, attr string, ok bool) {
 }
 
 func (m *modelTSM) MkdirTemp(dir, pattern string) (string, error) {
+	m.mu.Lock()
+	defer m.mu.Unlock()
 	m.mkdirs++
 	op := tsmOp{Op: "MkdirTemp", Path: dir + "/" + pattern}
 	if m.failMkdir == m.mkdirs {
@@ -105,6 +109,8 @@ func (m *modelTSM) MkdirTemp(dir, pattern string) (string, error) {
 }
 
 func (m *modelTSM) ReadFile(name string) ([]byte, error) {
+	m.mu.Lock()
+	defer m.mu.Unlock()
 	e, attr, ok := m.split(name)
 	ent := m.entries[e]
 	if !ok || ent == nil {
@@ -145,6 +151,8 @@ func (d dirInfo) IsDir() bool        { return true }
 func (d dirInfo) Sys() any           { return nil }
 
 func (m *modelTSM) ReadDir(dirname string) ([]os.DirEntry, error) {
+	m.mu.Lock()
+	defer m.mu.Unlock()
 	if dirname != rtmrRoot {
 		return nil, os.ErrNotExist
 	}
@@ -161,6 +169,8 @@ func (m *modelTSM) ReadDir(dirname string) ([]os.DirEntry, error) {
 }
 
 func (m *modelTSM) WriteFile(name string, contents []byte) error {
+	m.mu.Lock()
+	defer m.mu.Unlock()
 	m.writes++
 	op := tsmOp{Op: "WriteFile", Path: name, Data: append([]byte{}, contents...)}
 	defer func() { m.log = append(m.log, op) }()
@@ -203,6 +213,8 @@ func (m *modelTSM) WriteFile(name string, contents []byte) error {
 }
 
 func (m *modelTSM) RemoveAll(path string) error {
+	m.mu.Lock()
+	defer m.mu.Unlock()
 	m.log = append(m.log, tsmOp{Op: "RemoveAll", Path: path})
 	e, _, ok := m.split(path)
 	if ok {
@@ -270,7 +282,9 @@ func runRtmrHistory(h *rtmrHistory) rtmrResult {
 	want := map[int][]byte{} // reference registers
 	res := rtmrResult{}
 	for step, q := range h.Reqs {
+		m.mu.Lock()
 		before := len(m.log)
+		m.mu.Unlock()
 		boundBefore := map[int]string{} // index -> entry bound to it before the call
 		for name, e := range m.entries {
 			if i, err := strconv.Atoi(strings.TrimSpace(e.index)); err == nil && e.hasIndex {
@@ -287,7 +301,9 @@ func runRtmrHistory(h *rtmrHistory) rtmrResult {
 				err = rtmr.ExtendEventLogClient(m, q.Index, crypto.Hash(q.Hash), q.Log)
 			}
 		})
-		ops := m.log[before:]
+		m.mu.Lock()
+		ops := append([]tsmOp(nil), m.log[before:]...)
+		m.mu.Unlock()
 		res.ops += len(ops)
 		where := fmt.Sprintf("step %d %s: ", step, q)
 		if pv != "" {
